@@ -44,6 +44,7 @@ Record case := {
   c_data : list gdata;
   c_bit_fixed : bool;              (* measured: K_bit_map no longer reproduces *)
   c_exit0 : bool;
+  c_abnormal : bool;               (* the run panicked or had to be killed by the timeout *)
   c_files : list ofile;            (* the files the run wrote *)
   c_gofmt : bool;
   c_build : bool
@@ -141,21 +142,31 @@ Definition corr_component (c : case) : N :=
   else if case_has_skeleton c && negb (Bool.eqb (model_wf c) (c_build c)) then 3%N
   else 0%N.
 
-(* the property, on what the implementation did: a reported success left
-   gofmt-clean files with the header, in the package's namespace, that compile *)
+(* the property, on what the implementation did, for an input inside the feature set: the run exits 0
+   (no panic, no timeout) and left gofmt-clean files with the header, in the package's namespace, that
+   compile with the package *)
 Definition Pb (c : case) : bool :=
-  negb (c_exit0 c) ||
-  (forallb (fun f => header_ok (of_header f) && String.eqb (of_pkg f) (c_pkg c)) (c_files c)
-   && c_gofmt c && c_build c).
+  c_exit0 c && negb (c_abnormal c)
+  && forallb (fun f => header_ok (of_header f) && String.eqb (of_pkg f) (c_pkg c)) (c_files c)
+  && c_gofmt c && c_build c.
 
-(* a case outside the guards is not compared (verdict 9: counted by the harness, never a violation):
-   component 1 = outside the input class of the generator's own theorems; component 2 = the hypotheses of the
-   C01 theorems fail: the names the (possibly partial) skeleton declares collide with each other or with the
-   hand-written package (e.g. a -short option function named like a type of the package) *)
+(* verdict (kind, component):
+   0      agrees
+   1 k    the property holds on the observation but correspondence component k differs
+   2 k    the property fails on the observation of an input inside all guards: a concrete failing input
+   8 1    the property fails on an input OUTSIDE the input class of the generator's own theorems (classes of
+          open findings of the other properties): excused by the harness only while an open finding that
+          lists C01 reproduces for that subcommand, counted, otherwise a violation
+   8 2    the property fails and the hypotheses of the C01 theorems fail on this input: the names the
+          (possibly partial) skeleton declares collide with each other or with the hand-written package
+          (open findings K_opt_short_collision, K_ctor_method_name_collision, K_rest_unexported_iface):
+          excused only while one of those reproduces, counted
+   9 1    outside the generator guards, property holds: not compared further, counted *)
 Definition verdict (c : case) : N * N :=
-  if negb (case_in_guard c) then (9%N, 1%N)
-  else if negb (model_wf c) && negb (c_build c) then (9%N, 2%N)
-  else if negb (Pb c) then (2%N, corr_component c)
+  if negb (case_in_guard c) then (if Pb c then (9%N, 1%N) else (8%N, 1%N))
+  else if negb (Pb c) then
+    (if negb (model_wf c) && c_exit0 c && negb (c_abnormal c) && negb (c_build c) then (8%N, 2%N)
+     else (2%N, corr_component c))
   else match corr_component c with 0%N => (0%N, 0%N) | k => (1%N, k) end.
 
 Fixpoint mismatches_from (i : N) (cs : list case) : list (N * N) :=
